@@ -142,8 +142,8 @@ CHECKS = {
         "engine": "chub-bfs", "category": "model_checking", "design_ref": "DESIGN.md §3 C11",
         "technique": "exhaustive enumeration of synthetic-wiki configurations on the real fetcher under the controlled gevent hub, plus deviation-bounded enumeration of API response delivery orders (stateless re-execution with a choice prefix)",
         "text": "The real make_nuwiki/StartFetcher/Fetcher/FsOutput run in a greenlet under the driver-controlled hub; MwApi is subclassed only at the HTTP boundary, which blocks until the explorer delivers the synthetic wiki's answer. "
-                "Every configuration of the feature product (template depth 0-2, image none/direct/only-through-deepest-template/shared, redirect none/single/chain/self/cycle/dead, revisions single/two/pinned old, second article, missing page, chapters, noimages, API batch size 1/2/50) "
+                "Every configuration of the feature product (template depth 0-2, image none/direct/only-through-deepest-template/shared, redirect none/single/chain/self/cycle/dead, revisions single/two/pinned old, second article, missing page, chapters, noimages, API batch size 1/2/50, result limit 1/2/3/500 with continuation) "
                 "is fetched under FIFO delivery; for the representative configurations every delivery order with <=1 (quick) / <=2 (thorough) deviations from FIFO is executed. The archive is read back with nuwiki.Adapt and compared with what the wiki serves.",
-        "note": "one wiki; no HTTP errors; image downloads complete when requested (only API responses are re-ordered); query continuation is not exercised (result limit 500) - the statement's batch sizes 1..50 are covered for the request batch size only.",
+        "note": "one wiki; no HTTP errors; image downloads complete when requested (only API responses are re-ordered); request batch size 1/2/50 and result limits 1/2/3/500 with old-style query continuation for images and contributors.",
     },
 }
